@@ -119,6 +119,8 @@ fn main() {
                 facts!(24, DMock::p_rc2);
                 facts!(29, DMock::r_arc);
                 facts!(30, DMock::p_arc2);
+                facts!(33, DMock::r_val);
+                facts!(34, DMock::p_val2);
             }
             writeln!(out, "--").unwrap();
             out.flush().unwrap();
